@@ -1,6 +1,7 @@
 package vm
 
 import (
+	"encoding/json"
 	"fmt"
 	"math/big"
 	"regexp"
@@ -204,6 +205,27 @@ func (vm *VM) SelfTest(maxLen int) (int, []string) {
 			got := concretize(vm.intrinsics["strings.Replace"](vm, nil, []Value{sv, ".", "", int64(-1)}), m)
 			if got != strings.Replace(s, ".", "", -1) {
 				fail("strings.Replace", s, got, strings.Replace(s, ".", "", -1))
+			}
+		})
+	}
+	// encoding/json string encoding
+	jalpha := []byte{'a', '"', '\\', '<', '&', '\n', 0x01, 0x7f, 0xc3, 0xa9, 0xff, '\b', '\f', 0xe2, 0x80, 0xa8, '>', '\t', 0x1f, ' '}
+	var jtexts []string
+	for _, x := range jalpha {
+		jtexts = append(jtexts, string([]byte{x}))
+		for _, y := range jalpha {
+			jtexts = append(jtexts, string([]byte{x, y}))
+		}
+	}
+	jtexts = append(jtexts, "", "\xe2\x80\xa8", "\xe2\x80\xa9", "\xe2\x80\xaa", "R&D <fees> \"q3\"", "é\xc3", "\xf0\x9f\x98\x80", "a\x00b")
+	for _, s := range jtexts {
+		s := s
+		run(s, func(sv Value, m map[string]*big.Int) {
+			n++
+			got := concretize(vm.jsonQuote(sv), m)
+			wb, _ := json.Marshal(s)
+			if got != string(wb) {
+				fail("json.Marshal(string)", s, got, string(wb))
 			}
 		})
 	}
